@@ -657,3 +657,14 @@ func (eng *Engine) displayName(fn *ssa.Function) string {
 	}
 	return shortFuncName(fn)
 }
+
+// topName names the function an obligation belongs to: closures verified on their own go by the variable they are
+// assigned to ("(*serverConn).handleStreams.markClosed"), like their contracts.
+func (eng *Engine) topName(fn *ssa.Function) string {
+	if par := fn.Parent(); par != nil {
+		if n := closureVarName(par, fn); n != "" {
+			return shortFuncName(par) + "." + n
+		}
+	}
+	return shortFuncName(fn)
+}
